@@ -28,6 +28,8 @@ CONSTANTS
   EcdhCurves = {"P-256", "P-521"}
   ReserAll = FALSE
   Flips = 1
+  PayClasses = {"pattern"}
+  KeyVars = {"plain"}
   Deviation = "none"
 INVARIANT Emit
 CHECK_DEADLOCK FALSE
